@@ -31,7 +31,9 @@ expected values of the emitted unit tests and differs from the emitted chain on 
 `google.api.http` rule as `Method.field_headers` reads it (`HttpRule`: the `pattern` oneof incl.
 `custom {kind, path}`, additional bindings never read), and what the transports do with the call
 metadata (`callMetadata`, `grpcValues`: every pair is sent; `restHeaders`: the REST transports build
-`dict(metadata)`, so a key sent twice collapses to its last value).
+`dict(metadata)`, so a key sent twice collapses to its last value), and programs of calls that pass
+the same caller-owned metadata object again (`runProgram`: `tuple(metadata) + (…)` builds a new
+sequence, the caller's object is never written).
 
 NOT modelled (stated, reached by T2/T3 or outside C06):
 * literal segments with regex metacharacters (inserted unescaped by the code; `litItemsReal` states
@@ -511,6 +513,35 @@ def restHeaders (md : List (List Char × List Char)) : List (List Char × List C
 
 def restValue (md : List (List Char × List Char)) (k : List Char) : Option (List Char) :=
   dictGet (restHeaders md) k
+
+/-! ### programs: several calls, possibly passing the SAME caller-owned metadata object -/
+
+/-- the caller's metadata objects (Python lists / tuples), by index -/
+abbrev MdStore := List (List (List Char × List Char))
+
+/-- one call of a program -/
+structure Call where
+  routing : Option (List Char)   -- `header ct m r` of THIS call's method and request
+  md : Option Nat                -- which of the caller's objects is passed as `metadata=` (none: the default `()`)
+deriving Repr, DecidableEq
+
+def MdStore.read (st : MdStore) : Option Nat → List (List Char × List Char)
+  | none => []
+  | some i => st.getD i []
+
+/-- `metadata = tuple(metadata) + (routing pair,)`: a NEW sequence goes to the transport, the caller's
+    object is not written (the store comes back as it was) -/
+def callStep (extra : List (List Char × List Char)) (st : MdStore) (c : Call) :
+    List (List Char × List Char) × MdStore :=
+  (callMetadata (st.read c.md) c.routing extra, st)
+
+/-- the metadata sequences the transport receives call after call, and the caller's objects afterwards -/
+def runProgram (extra : List (List Char × List Char)) : MdStore → List Call →
+    List (List (List Char × List Char)) × MdStore
+  | st, [] => ([], st)
+  | st, c :: cs =>
+    ((callStep extra st c).1 :: (runProgram extra (callStep extra st c).2 cs).1,
+     (runProgram extra (callStep extra st c).2 cs).2)
 
 /-! ### the emitted chain on a parameter whose template has no named segment -/
 
